@@ -9,7 +9,7 @@ from . import c01
 
 PROP = "C08"
 PROPS_FILE = "theories/Props/C08.v"
-THEOREMS = ["c08_initial_values_by_name", "c08_initial_values_order_irrelevant", "c08_filter_scans_everything", "c08_params", "c08_one_solver_each", "c08_numeric_symbols_closed", "c08_numeric_update_symbols_closed"]
+THEOREMS = ["c08_initial_values_by_name", "c08_initial_values_order_irrelevant", "c08_filter_scans_everything", "c08_params", "c08_one_solver_each", "c08_numeric_symbols_closed", "c08_numeric_update_symbols_closed", "c08_analytic_update_symbols_closed"]
 GEN_FILES = ["ParamFilterGen.v"]
 TRUSTED = ["Coq 8.16.1 kernel + vm_compute", "theorems closed under the global context",
            "translator harness/translate_more.gen_param_filter: the list of solver-dictionary keys scanned by the parameter filter of _analysis, regenerated from /repo on every run (fail-closed)",
